@@ -27,14 +27,27 @@ def fold_outside_literals(text):
 def check_p(arg):
     seed, keep = arg
     import fp
-    st, _ = gen.gen_program(seed, "f2003", size=0.6)
-    src = gen.render(st)
+    laid_out = False
+    if isinstance(seed, str):
+        src, laid_out = seed, True            # a catalogue entry: takes part when the F2003 parser accepts it
+    else:
+        st, _ = gen.gen_program(abs(seed), "f2003", size=0.6)
+        src = gen.render(st)
+        if seed < 0:
+            # the same program in a free layout (blanks between tokens widened or removed, continuations, comments)
+            import layout
+            import random
+            src = layout.free_layout(st, random.Random(seed), gen.USER_NAMES, comments=True, p_comment=0.2, p_break=0.3,
+                                     p_respace=0.6, p_tight=0.3).text()
+            laid_out = True
     a = fp.parse(src, std="f2003", ignore_comments=not keep)
     fp._current_std[0] = None
     b = fp.parse(src, std="f2008", ignore_comments=not keep)
     fp._current_std[0] = None
     rep = dict(source=src)
     if a.kind != "tree":
+        if laid_out:
+            return []
         return [("generator", "F2003 program rejected by the F2003 parser", rep)]
     if b.kind != "tree":
         return [("f2008_rejects_f2003_program", "accepted under f2003, %s under f2008 (line %s)" % (b.kind, b.line), rep)]
@@ -42,15 +55,33 @@ def check_p(arg):
     from fparser.two.Fortran2008.intrinsics_f08 import Intrinsic_Name as N08
     only08 = {n.lower() for n in set(N08.generic_function_names) - set(fp.F3.Intrinsic_Name.generic_function_names)}
     uses08 = bool(only08 & set(re.findall(r"[a-z_][a-z0-9_]*", fold_outside_literals(src))))
+    fails = []
+    sa, sb = str(a.tree), str(b.tree)
+    la, lb = sa.split("\n"), sb.split("\n")
+    if len(la) == len(lb):
+        # recorded finding: the F2003 Procedure_Stmt prints 'MODULE PROCEDURE' whether or not MODULE was written
+        # (pinned by test_procedure_stmt); the line is taken from the F2008 text and the comparison goes on
+        for i, (x, y) in enumerate(zip(la, lb)):
+            if x != y and y.strip().startswith("PROCEDURE ") and x.strip() == "MODULE " + y.strip() \
+                    and re.search(r"(?im)^\s*procedure\s+[a-z]", src):
+                la[i] = y
+                if not fails:
+                    fails.append(("f2003_prints_module_procedure_for_procedure", "f2003: %r  f2008: %r" % (x, y), rep))
+        sa = "\n".join(la)
+
+    class _T:        # the texts compared below
+        def __init__(self, t):
+            self.tree = t
+    a, b = _T(sa), _T(sb)
     if not uses08 and str(a.tree) != str(b.tree):
         la, lb = str(a.tree).split("\n"), str(b.tree).split("\n")
         i = next((k for k in range(min(len(la), len(lb))) if la[k] != lb[k]), 0)
-        return [("regenerated_text_differs_in_case", "f2003: %r  f2008: %r" % (la[i:i + 1], lb[i:i + 1]), rep)]
+        return fails + [("regenerated_text_differs_in_case", "f2003: %r  f2008: %r" % (la[i:i + 1], lb[i:i + 1]), rep)]
     if fold_outside_literals(str(a.tree)) != fold_outside_literals(str(b.tree)):
         la, lb = str(a.tree).split("\n"), str(b.tree).split("\n")
         i = next((k for k in range(min(len(la), len(lb))) if fold_outside_literals(la[k]) != fold_outside_literals(lb[k])), 0)
-        return [("regenerated_text_differs", "f2003: %r  f2008: %r" % (la[i:i + 1], lb[i:i + 1]), rep)]
-    return []
+        return fails + [("regenerated_text_differs", "f2003: %r  f2008: %r" % (la[i:i + 1], lb[i:i + 1]), rep)]
+    return fails
 
 
 def check_q(arg):
@@ -118,6 +149,12 @@ def run(ctx):
                 samples=[dict(keys_f2003=n03, keys_f2008=n08)])
     failures = []
     pj = [(ctx.seed * 89 + k, k % 3 == 0) for k in range(ctx.n(120, 4000))]
+    pj += [(-(ctx.seed * 89 + k + 1), k % 3 == 0) for k in range(ctx.n(120, 4000))]       # the same programs laid out freely
+    import catalogue
+    import kwnames
+    cat = catalogue.sources()
+    kw = kwnames.exhaustive(ctx.seed, [w for w in kwnames.WRAPS if w != "%s\n"])
+    pj += [(src, False) for src in (cat[ctx.seed % 3::3] + kw[ctx.seed % 6::6] if ctx.quick else cat + kw)]
     for job, (st, r) in zip(pj, pool.pmap(check_p, pj, chunksize=6)):
         if st != "ok":
             failures.append(("harness_error", r[:300], dict(job=job)))
